@@ -414,7 +414,9 @@ def make_cases(n, seed):
 FIXED = [
     ("rpm", "-", ["<> 1.0"]), ("rpm", "-", ["== 1.0"]), ("rpm", "-", ["> 2.23,"]), ("rpm", "-", []),
     ("deb", "-", ["(>> 2.23)"]), ("deb", "-", ["= 5.0", "(>> 2.23)", "< 2.24"]), ("deb", "-", ["~2.3"]),
-    ("nginx", "-", "1.2.3-1.2.3"), ("nginx", "-", "0.8.40+, 0.7.66+"), ("nginx", "-", "1.5.0+, 1.4.1+"),
+    ("nginx", "-", "1.2.3-1.2.3"), ("nginx", "-", "1.2-1.2.0"), ("nginx", "-", "1.2.3-1.2.3+b1"),
+    ("nginx", "-", "1.2.3-rc1-1.2.3-rc1"), ("nginx", "-", "1.2.3-01.2.3, 1.4.0-1.4.1"), ("rpm", "-", ["<>1.0", "<1", ">2"]),
+    ("gitlab", "pypi", "==,==,1.0"), ("gitlab", "pypi", "===,1.0"), ("gitlab", "pypi", "<,~=1.0"), ("nginx", "-", "0.8.40+, 0.7.66+"), ("nginx", "-", "1.5.0+, 1.4.1+"),
     ("nginx", "-", "all"), ("nginx", "-", "none"), ("nginx", "-", "1.1.4-1.2.8, 1.3.9-1.4.0"),
     ("nginx", "-", "1.2.0-rc1+"), ("nginx", "-", ""), ("nginx", "-", "1.9+"),
     ("openssl", "-", "1.0.1A, 3.0.0"), ("openssl", "-", ""),
@@ -456,15 +458,18 @@ def model_lines(lines, umodel):
     return out
 
 
-def run(n=2000, seed=0, umodel=None, verbose=True):
-    stubs_ans = model_lines(["advisory stubs"], umodel)[0]
+def run(n=2000, seed=0, umodel=None, verbose=True, stub_all=False):
+    """stub_all: text layer only — every version class but NginxVersion is replaced by the base
+    class on both sides (independent of the state of the Layer-A models)"""
+    pre = "stub " if stub_all else ""
+    stubs_ans = model_lines([pre + "advisory stubs"], umodel)[0]
     if stubs_ans == "bad-op":
         raise common.Tooling("driver has no `advisory` handler")
     stubs = [s for s in stubs_ans.split(",") if s]
     for rc in R.RANGE_CLASS_BY_SCHEMES.values():
         ORIG_VC.setdefault(rc, rc.version_class)
     cases = make_cases(n, seed)
-    lines = [line_of(c) for c in cases]
+    lines = [pre + line_of(c) for c in cases]
     with StubPatch(stubs):
         exp = []
         for kind, scheme, arg in cases:
@@ -525,8 +530,10 @@ def main(argv=None):
     ap.add_argument("--n", type=int, default=2000)
     ap.add_argument("--seed", type=int, default=common.seed_from_env())
     ap.add_argument("--umodel", default=None)
+    ap.add_argument("--stub-all", action="store_true",
+                    help="text layer only: base Version class for every scheme but nginx")
     a = ap.parse_args(argv)
-    rc, _, _ = run(a.n, a.seed, a.umodel, verbose=True)
+    rc, _, _ = run(a.n, a.seed, a.umodel, verbose=True, stub_all=a.stub_all)
     return rc
 
 
